@@ -93,12 +93,12 @@ StepInterp(e) ==
 
 \* refinement ladder of one configuration: the first-order error shrinks from rung to rung (C03 gap, C02 errors);
 \* errs: integers = error * 10^8 (capped), one per rung, coarse to fine
-\* every rung is smaller than the one before (<= 17/20: coarse rungs may still be pre-asymptotic, where two error
-\* sources partly cancel) and the finest pair shows the first-order rate (<= 7/10; a halved mesh gives ~1/2).
-\* errs <= 10^8, so the products stay below 2^31.
+\* "the error shrinks under refinement": every rung is smaller than the one before (coarse rungs may still be pre-asymptotic,
+\* where two error sources partly cancel: no rate is demanded of them), and the finest pair shows the first-order rate
+\* (<= 7/10; a halved mesh gives ~1/2).  errs <= 10^8, so the products stay below 2^31.
 StepLadder(e) ==
     LET n   == Len(e.errs)
-        bad == IF (\E i \in 1..(n - 1) : 20 * e.errs[i + 1] > 17 * e.errs[i] + 10)
+        bad == IF (\E i \in 1..(n - 1) : e.errs[i + 1] >= e.errs[i] /\ e.errs[i] > 10)
                   \/ (n >= 2 /\ 10 * e.errs[n] > 7 * e.errs[n - 1] + 10)
                THEN {e.owner \o ".LadderShrinks"} ELSE {}
     IN  Report(e, bad) /\ UNCHANGED h
